@@ -325,7 +325,8 @@ def check_main(pid, tier, only=None, njobs=None, keep=False):
         for j, e in harness_errors[:5]:
             print(f'HARNESS-ERROR {pid} {j}: {e[-1500:]}')
         wall = time.time() - t0
-        write_evidence(mod, pid, tier, seed, results, wall, len(violations), replayed, spurious, known_hits, timeouts)
+        if not os.environ.get('VERIF_KEEP_EVIDENCE'):
+            write_evidence(mod, pid, tier, seed, results, wall, len(violations), replayed, spurious, known_hits, timeouts)
         print(f'{pid} [{tier}] jobs={len(results)} paths={sum(r["paths"] for r in results)} '
               f'obligations={ob} discharged={dis} inconclusive={inc} timeouts={len(timeouts)} '
               f'violations={len(lines)} known={len(known_hits)} wall={wall:.1f}s')
